@@ -206,6 +206,13 @@ def run(ctx: common.Ctx) -> None:
             if n_corpus:
                 from vlib import c05_corpus
                 c05_corpus.run_corpus(ctx, pool, wd, n_corpus, repo)
+        # one witness per mechanism key first: only the first few violations get a replay file written
+        first: dict[str, int] = {}
+        order = []
+        for i, v in enumerate(ctx.violations):
+            order.append((0 if v["key"] not in first else 1, i))
+            first.setdefault(v["key"], i)
+        ctx.violations = [ctx.violations[i] for _, i in sorted(order)]
         if os.environ.get("VERIF_C05_DUMP"):
             import json
             with open(os.environ["VERIF_C05_DUMP"], "w") as f:
